@@ -186,20 +186,29 @@ fn real_derive(ast: &syn::DeriveInput, dir: Option<&str>, ctx: &Ctx) -> Value {
     }));
     match gen {
         Ok(Ok(tokens)) => {
-            let dep = if tokens.contains("deprecated") {
-                "warn"
-            } else if tokens.contains("pub old") {
-                "allow"
-            } else {
-                "deny"
-            };
-            m.insert("deprecation".into(), json!(dep));
-            let vis = syn::parse_str::<syn::File>(&tokens).ok().and_then(|f| {
+            let file = syn::parse_str::<syn::File>(&tokens).ok();
+            let module = file.as_ref().and_then(|f| {
                 f.items.iter().find_map(|i| match i {
-                    syn::Item::Mod(md) => Some(md.vis.to_token_stream().to_string().replace(' ', "")),
+                    syn::Item::Mod(md) => Some(md),
                     _ => None,
                 })
             });
+            // the field `old` of ResponseData: absent = deny, #[deprecated] = warn, plain = allow
+            let old = module.and_then(|md| md.content.as_ref()).and_then(|(_, items)| {
+                items.iter().find_map(|i| match i {
+                    syn::Item::Struct(s) if s.ident == "ResponseData" => Some(
+                        s.fields.iter().find(|f| f.ident.as_ref().map(|i| i == "old").unwrap_or(false)).map(|f| f.attrs.iter().any(|a| a.path().is_ident("deprecated"))),
+                    ),
+                    _ => None,
+                })
+            });
+            match old {
+                Some(Some(true)) => m.insert("deprecation".into(), json!("warn")),
+                Some(Some(false)) => m.insert("deprecation".into(), json!("allow")),
+                Some(None) => m.insert("deprecation".into(), json!("deny")),
+                None => m.insert("probe_error".into(), json!("no ResponseData in the probe module")),
+            };
+            let vis = module.map(|md| md.vis.to_token_stream().to_string().replace(' ', ""));
             m.insert("visibility".into(), json!(vis));
         }
         Ok(Err(e)) => {
@@ -468,7 +477,7 @@ pub fn run_case(c: &Case, ctx: &mut Ctx) -> CaseResult {
             if wf.render() != "(true)" {
                 res.internal.push(format!("generated items are not WfItems: {}", sp.items_sexp().short(300)));
             }
-            if c.oracle.get("derive").is_some() && sp.paths_in_spec {
+            if c.oracle.get("derive").is_some() {
                 let mut all: Vec<String> = strings.clone();
                 all.extend(sp.all_values());
                 let sd = ctx.model.ask(&tagged("spec-options", vec![sp.items_sexp(), dir_sexp(dir), path_table(&all)]));
@@ -491,6 +500,10 @@ pub fn run_case(c: &Case, ctx: &mut Ctx) -> CaseResult {
 
 fn record(rep: &mut Report, c: &Case, r: CaseResult, sample: bool) {
     rep.count(&format!("kind:{}", c.kind));
+    rep.count(&format!(
+        "derive_result:{}",
+        if r.real["derive"].get("ok").is_some() { "ok" } else if r.real["derive"].get("err").is_some() { "err" } else { "panic" }
+    ));
     for t in &c.tags {
         rep.count(t);
     }
@@ -531,6 +544,9 @@ fn class_of(msg: &str) -> String {
         "ident" => "ident_exists".into(),
         "list" => "extract_attr_list".into(),
         "derive" => format!("options.{}", parts.last().unwrap_or("result")),
+        "fns" => format!("extract_{}", parts.last().unwrap_or("fn")),
+        _ if msg.starts_with("options carry") || msg.starts_with("boolean options") => "options-vs-extract-functions".into(),
+        _ if msg.contains("panicked") => "panic".into(),
         _ => "other".into(),
     }
 }
@@ -585,11 +601,18 @@ fn main() {
     } else {
         let mut rng = Rng::new(a.seed);
         // fixed witnesses first (Lean negative theorems replayed on the real code, unit-test texts of the repository)
+        let mut replays = vec![];
         for c in gen::witnesses() {
             let r = run_case(&c, &mut ctx);
+            if c.kind.starts_with("witness:") {
+                replays.push(json!({"witness": c.kind, "text": c.text, "manifest_dir": c.manifest_dir,
+                    "attr.deprecated": r.real["attr"]["deprecated"], "list.extern_enums": r.real["list"]["extern_enums"],
+                    "derive": r.real["derive"], "agrees_with_model": r.tie.is_empty()}));
+            }
             record(&mut rep, &c, r, false);
         }
-        let (n_wf, n_mal) = if rep.thorough() { (40000, 16000) } else { (3500, 1500) };
+        rep.extra.insert("witness_replays".into(), json!(replays));
+        let (n_wf, n_mal) = if rep.thorough() { (60000, 28000) } else { (10000, 5000) };
         for i in 0..n_wf {
             let c = gen::well_formed(&mut rng);
             let r = run_case(&c, &mut ctx);
